@@ -7,6 +7,7 @@
 #include <signal.h>
 #include <unistd.h>
 #include <stdint.h>
+#include <sys/mman.h>
 
 static volatile long g_case = -1;      /* index of the case being executed (for crash attribution) */
 static const char *volatile g_stage = "";
@@ -54,19 +55,26 @@ static int hexval(int c)
 /* VERIF_ALIGN=1: decoded inputs are placed at offsets 0..15 from the allocator's alignment (the terminator still ends the block,
  * so the red zone after it stays adjacent); hexfree() releases them. */
 static size_t g_align_ctr = 0;
+/* VERIF_ALIGN=2: decoded inputs live in read-only pages, the terminator is the last byte before an inaccessible page (the input is
+ * `const char *`: a validator that patches it temporarily, or reads past the terminator, faults here). */
 static int align_mode(void)
 {
     static int m = -1;
-    if (m < 0) m = getenv("VERIF_ALIGN") ? 1 : 0;
+    if (m < 0) { const char *e = getenv("VERIF_ALIGN"); m = e ? (e[0] == '2' ? 2 : 1) : 0; }
     return m;
 }
 #define HEXDUP_SLOTS 8
 static char *hexdup_ret[HEXDUP_SLOTS], *hexdup_base[HEXDUP_SLOTS];
+static size_t hexdup_map[HEXDUP_SLOTS];
 static void hexfree(char *p)
 {
     int i;
     for (i = 0; i < HEXDUP_SLOTS; i++)
-        if (p && hexdup_ret[i] == p) { free(hexdup_base[i]); hexdup_ret[i] = NULL; return; }
+        if (p && hexdup_ret[i] == p) {
+            if (hexdup_map[i]) munmap(hexdup_base[i], hexdup_map[i]); else free(hexdup_base[i]);
+            hexdup_ret[i] = NULL; hexdup_map[i] = 0;
+            return;
+        }
     free(p);
 }
 
@@ -98,13 +106,25 @@ static char *hexdup_in(const char *hex, size_t *outlen)
     size_t o;
     int k;
     if (!align_mode()) return p;
+    for (k = 0; k < HEXDUP_SLOTS; k++) if (!hexdup_ret[k]) break;
+    if (k == HEXDUP_SLOTS) k = 0;
+    if (align_mode() == 2) {
+        size_t pg = (size_t)sysconf(_SC_PAGESIZE), data = ((*outlen + 1 + pg - 1) / pg) * pg, total = data + pg;
+        base = mmap(NULL, total, PROT_READ | PROT_WRITE, MAP_PRIVATE | MAP_ANONYMOUS, -1, 0);
+        if (base == MAP_FAILED) return p;
+        o = data - (*outlen + 1);
+        memcpy(base + o, p, *outlen + 1);
+        free(p);
+        mprotect(base, data, PROT_READ);
+        mprotect(base + data, pg, PROT_NONE);
+        hexdup_ret[k] = base + o; hexdup_base[k] = base; hexdup_map[k] = total;
+        return base + o;
+    }
     o = (g_align_ctr++ * 7 + 3) % 16;
     base = malloc(o + *outlen + 1);
     memcpy(base + o, p, *outlen + 1);
     free(p);
-    for (k = 0; k < HEXDUP_SLOTS; k++) if (!hexdup_ret[k]) break;
-    if (k == HEXDUP_SLOTS) k = 0;
-    hexdup_ret[k] = base + o; hexdup_base[k] = base;
+    hexdup_ret[k] = base + o; hexdup_base[k] = base; hexdup_map[k] = 0;
     return base + o;
 }
 
